@@ -73,6 +73,7 @@ class Recorder:
         self.desc = {}           # descriptor uid -> (stream, run ordinal)
         self.docs = []           # raw (name, doc) for property-specific oracles
         self.sched = []          # scheduling info (not part of the trace)
+        self.groups = {}         # group names -> canonical g<n> (built-in plans use random group names)
 
     def ev(self, k, s1="", s2="", s3="", n1=0, n2=0, s4=""):
         with self.lock:
@@ -86,7 +87,10 @@ class Recorder:
             self._keep.append(msg)
         obj = getattr(msg.obj, "name", "") if msg.obj is not None else ""
         run = "" if msg.run is None else str(msg.run)
-        self.ev("msg", msg.command, obj, run, self._mids[i], 0, msg_arg(msg))
+        a = msg_arg(msg)
+        if msg.command in GROUP_CMDS and a != "":
+            a = self.groups.setdefault(a, f"g{len(self.groups) + 1}")
+        self.ev("msg", msg.command, obj, run, self._mids[i], 0, a)
 
     def state_hook(self, new, old):
         self.ev("state", str(old), str(new))
@@ -201,6 +205,7 @@ def msg_arg(msg):
     return ""
 
 
+GROUP_CMDS = ("set", "trigger", "stage", "unstage", "kickoff", "complete", "prepare", "wait")
 FUT_NAMES = {}     # id(awaitable factory) -> name, registered by the scenario runner
 
 
